@@ -62,6 +62,7 @@ class State:
 TOTAL_CALLS = {
     "len", "isinstance", "type", "repr", "id", "bool", "callable", "hasattr", "tuple", "list", "dict",
     "bytes.decode:latin-1", "cast", "getattr3", "object", "enumerate", "iter", "super", "min", "max", "abs",
+    "hex", "oct", "bin", "ord", "sorted", "reversed", "zip", "range", "memoryview", "bytearray", "divmod", "round", "sum", "any", "all",
 }
 TOTAL_METHODS = {
     "append", "items", "values", "keys", "join", "rstrip", "lstrip", "strip", "startswith", "endswith", "is_set",
@@ -577,6 +578,17 @@ class Effects:
             out.append(self.esc(ANY, False, fi, c, "effectful-call"))
             return out
         # -- partial primitives
+        sb = self.repo.struct_binding(fn, fi) if fname not in ("struct.unpack", "struct.pack") else None
+        if sb is not None:
+            # precompiled struct.Struct(F).unpack / .pack: same contract as struct.unpack(F, b) / struct.pack(F, ...)
+            fake = ast.Call(func=ast.parse(f"struct.{sb[1]}", mode="eval").body, args=[ast.Constant(value=sb[0])] + list(c.args), keywords=[])
+            ast.copy_location(fake, c)
+            ast.fix_missing_locations(fake)
+            if sb[1] == "pack":
+                out.extend(self.pack(fake, fi, st))
+                return out
+            c = fake
+            fname = "struct.unpack"
         if fname == "struct.unpack":
             fmt = self.repo.fold_in(c.args[0], fi) if c.args else UNKNOWN
             site = {"site": f"{fi.module.rel}:{c.lineno} {fi.short}", "construct": norm(c), "kind": "struct.unpack"}
@@ -612,8 +624,8 @@ class Effects:
             codec = self.repo.fold_in(c.args[0], fi) if c.args else "utf-8"
             recv = fn.value
             total = False
-            if codec == "ascii" and isinstance(recv, ast.Call) and callee_last(recv) in ("rstrip", "str") :
-                total = self._is_str_of_int(recv)
+            if codec == "ascii" and isinstance(recv, ast.Call) and callee_last(recv) in ("rstrip", "str", "hex", "oct", "bin", "repr"):
+                total = self._is_str_of_int(recv) or callee_last(recv) in ("hex", "oct", "bin")
             if isinstance(recv, ast.Constant):
                 total = True
             self.primitive_sites.append({"site": f"{fi.module.rel}:{c.lineno} {fi.short}", "construct": norm(c), "kind": "encode",
